@@ -24,7 +24,7 @@ from typing import Any, Dict, List, Optional, Set, Tuple
 
 from ..core import AnalysisError, ClassInfo, Ctx, FuncInfo, body_without_docstring, calls_in, dotted, norm, walk_no_nested
 from ..decide import paths_of
-from ..fold import Folder, Unfoldable
+from ..fold import Folder, Sym, Unfoldable
 from ..linform import prove_count_reduction
 
 SYM = "_bit_length_set._symbolic"
@@ -33,6 +33,26 @@ MEMO_SLOTS = {"_min": "min", "_max": "max", "_modula": "modulo", "_expansion": "
 MUTATORS = {"add", "update", "discard", "remove", "pop", "clear", "intersection_update", "difference_update", "symmetric_difference_update", "append", "extend", "insert", "sort", "reverse", "setdefault", "popitem"}
 COPIERS = {"set", "list", "frozenset", "sorted", "tuple", "dict"}
 QUERIES = ("min", "max", "modulo", "expand")
+
+
+
+def single_return(ctx: Ctx, fn: FuncInfo) -> Optional[ast.AST]:
+    """the returned expression of a function with one return path, private helpers expanded and temporaries substituted"""
+    ps = [p for p in paths_of(ctx.inl(fn)) if p.kind == "return"]
+    others = [p for p in paths_of(ctx.inl(fn)) if p.kind not in ("return", "raise")]
+    if len(ps) != 1 or others:
+        return None
+    return ps[0].value
+
+
+def _sample_ints(n: int, lo: int, hi: int, seed: int) -> List[int]:
+    # deterministic spread, including the boundaries
+    out = [lo, hi, lo + 1, (lo + hi) // 2]
+    x = seed
+    while len(out) < n:
+        x = (x * 1103515245 + 12345) % (1 << 31)
+        out.append(lo + x % (hi - lo + 1))
+    return out[:n]
 
 
 def operators(ctx: Ctx) -> List[ClassInfo]:
@@ -181,20 +201,36 @@ def rule_r4(ctx: Ctx) -> None:
             extra = sorted(used - allowed[q])
             ctx.check(not extra, fn.short, "reads %s" % sorted(used), "%s must be derived from the children's %s only" % (q, "/".join(sorted(allowed[q]))), fn.where(), extra)
     b = ctx.cls(BLS)
-    plumbing = {
-        "min": "self._op.min",
-        "max": "self._op.max",
-        "fixed_length": "self.min == self.max",
-        "__mod__": "BitLengthSet(self._op.modulo(int(divisor)))",
-        "is_aligned_at": "set(self % bit_length) == {0}",
-        "__iter__": "iter(self._op.expand())",
-        "__len__": "len(self._op.expand())",
-    }
-    for name, want in plumbing.items():
+    # public queries: which operator query answers them (decided on the returned expression, helpers expanded, temporaries
+    # substituted): the query name and, for modulo, that the divisor is handed over
+    plumbing = {"min": ("min", None), "max": ("max", None), "__mod__": ("modulo", 1), "__iter__": ("expand", None), "__len__": ("expand", None)}
+    for name, (q, argpos) in plumbing.items():
         fn = b.methods.get(name)
-        rets = [norm(r.value) for r in walk_no_nested(fn.node) if isinstance(r, ast.Return) and r.value is not None] if fn else []
-        alt = {want, want.replace("divisor", fn.params[1]) if fn and len(fn.params) > 1 else want, want.replace("bit_length", fn.params[1]) if fn and len(fn.params) > 1 else want}
-        ctx.check(len(rets) == 1 and rets[0] in alt, b.short + "." + name, str(rets), "public query %s must be answered by the operator query of the same meaning" % name, fn.where() if fn else b.module.relpath)
+        if fn is None:
+            raise AnalysisError("anchor BitLengthSet.%s missing" % name)
+        v = single_return(ctx, fn)
+        if v is None:
+            raise AnalysisError("BitLengthSet.%s: not a single returned expression" % name)
+        used = {n.attr for n in ast.walk(v) if isinstance(n, ast.Attribute) and n.attr in QUERIES and norm(n.value) == "self._op"}
+        good = used == {q}
+        if good and argpos is not None:
+            calls = [c for c in ast.walk(v) if isinstance(c, ast.Call) and isinstance(c.func, ast.Attribute) and c.func.attr == q]
+            good = len(calls) == 1 and len(calls[0].args) == 1 and any(isinstance(n, ast.Name) and n.id == fn.params[argpos] for n in ast.walk(calls[0].args[0]))
+        ctx.check(good, b.short + "." + name, norm(v)[:80], "public query %s must be answered by the operator query `%s`" % (name, q), fn.where())
+    for name, needs in (("fixed_length", {"min", "max"}), ("is_aligned_at", {"__mod__"})):
+        fn = b.methods.get(name)
+        if fn is None:
+            raise AnalysisError("anchor BitLengthSet.%s missing" % name)
+        v = single_return(ctx, fn)
+        if v is None:
+            raise AnalysisError("BitLengthSet.%s: not a single returned expression" % name)
+        txt = norm(v)
+        if name == "fixed_length":
+            good = isinstance(v, ast.Compare) and len(v.ops) == 1 and isinstance(v.ops[0], ast.Eq) and {norm(v.left), norm(v.comparators[0])} == {"self.min", "self.max"}
+        else:
+            # the residues of self modulo the argument are exactly {0}
+            good = isinstance(v, ast.Compare) and len(v.ops) == 1 and isinstance(v.ops[0], ast.Eq) and any(norm(x) in ("{0}", "set([0])", "set((0,))", "frozenset({0})") for x in (v.left, v.comparators[0])) and ("self %% %s" % fn.params[1]) in txt
+        ctx.check(good, b.short + "." + name, txt[:80], "public query %s must be derived from %s" % (name, sorted(needs)), fn.where())
 
 
 def rule_r5(ctx: Ctx) -> None:
@@ -206,8 +242,9 @@ def rule_r5(ctx: Ctx) -> None:
         if fn is None:
             continue
         d = fn.params[1]
+        node = ctx.inl(fn)
         local: Dict[str, ast.AST] = {}
-        for st in walk_no_nested(fn.node):
+        for st in walk_no_nested(node):
             if isinstance(st, ast.Assign) and len(st.targets) == 1 and isinstance(st.targets[0], ast.Name):
                 local[st.targets[0].id] = st.value
 
@@ -221,7 +258,7 @@ def rule_r5(ctx: Ctx) -> None:
                 return any(norm(a) == d for a in e.args)
             return False
 
-        bad_q = [norm(cl) for cl in calls_in(fn.node, include_nested=True) if isinstance(cl.func, ast.Attribute) and cl.func.attr == "modulo" and not (len(cl.args) == 1 and is_divisor_multiple(cl.args[0]))]
+        bad_q = [norm(cl) for cl in calls_in(node, include_nested=True) if isinstance(cl.func, ast.Attribute) and cl.func.attr == "modulo" and not (len(cl.args) == 1 and is_divisor_multiple(cl.args[0]))]
 
         def reduced(e: ast.AST) -> bool:
             if isinstance(e, ast.BinOp) and isinstance(e.op, ast.Mod) and norm(e.right) == d:
@@ -247,12 +284,33 @@ def rule_r5(ctx: Ctx) -> None:
                 return set_reduced(a, depth + 1)
             if reduced(e):
                 return True  # a child's residue set for the same divisor
+            if isinstance(e, ast.BinOp) and isinstance(e.op, ast.BitOr):
+                return set_reduced(e.left, depth + 1) and set_reduced(e.right, depth + 1)
+            if isinstance(e, ast.Call) and isinstance(e.func, ast.Attribute) and e.func.attr == "union":
+                # set().union(*(S for ...)) / A.union(B, C): every operand is a reduced set
+                base = e.func.value
+                base_ok = norm(base) in ("set()", "frozenset()", "set") or set_reduced(base, depth + 1)
+                ops_ok = True
+                for a in e.args:
+                    if isinstance(a, ast.Starred):
+                        g = a.value
+                        if isinstance(g, (ast.GeneratorExp, ast.ListComp, ast.SetComp)):
+                            ops_ok = ops_ok and set_reduced(g.elt, depth + 1)
+                        elif isinstance(g, ast.Call) and dotted(g.func) == "map" and isinstance(g.args[0], ast.Lambda):
+                            ops_ok = ops_ok and set_reduced(g.args[0].body, depth + 1)
+                        else:
+                            ops_ok = False
+                    else:
+                        ops_ok = ops_ok and set_reduced(a, depth + 1)
+                return base_ok and ops_ok
+            if isinstance(e, ast.Call) and dotted(e.func) in ("frozenset", "sorted", "list", "tuple") and len(e.args) == 1:
+                return set_reduced(e.args[0], depth + 1)
             if isinstance(e, ast.Name):
                 # accumulator: initialised empty, fed only with reduced elements / reduced sets
-                inits = [st.value for st in walk_no_nested(fn.node) if isinstance(st, ast.Assign) and any(isinstance(t, ast.Name) and t.id == e.id for t in st.targets)]
+                inits = [st.value for st in walk_no_nested(node) if isinstance(st, ast.Assign) and any(isinstance(t, ast.Name) and t.id == e.id for t in st.targets)]
                 if not inits or not all(norm(i) in ("set()",) or set_reduced(i, depth + 1) for i in inits):
                     return False
-                for st in walk_no_nested(fn.node):
+                for st in walk_no_nested(node):
                     if isinstance(st, ast.Call) and isinstance(st.func, ast.Attribute) and isinstance(st.func.value, ast.Name) and st.func.value.id == e.id:
                         if st.func.attr == "add" and not reduced(st.args[0]):
                             return False
@@ -264,7 +322,7 @@ def rule_r5(ctx: Ctx) -> None:
                 return True
             return False
 
-        rets = [r.value for r in walk_no_nested(fn.node) if isinstance(r, ast.Return) and r.value is not None]
+        rets = [r.value for r in walk_no_nested(node) if isinstance(r, ast.Return) and r.value is not None]
         bad_r = [norm(r) for r in rets if not set_reduced(r)]
         ctx.check(not bad_q and not bad_r and bool(rets), fn.short, "child queries %s; returns %s" % ("ok" if not bad_q else bad_q, [norm(r)[:50] for r in rets]), "residues mod d are determined by residues mod a multiple of d and by nothing coarser; results are residues mod d", fn.where(), {"bad_child_queries": bad_q, "unreduced_returns": bad_r})
 
@@ -326,7 +384,7 @@ def rule_r7(ctx: Ctx) -> None:
         rets = [norm(r.value) for r in walk_no_nested(fn.node) if isinstance(r, ast.Return)] if fn else []
         ctx.check(rets == [want.replace("other", fn.params[1])] if fn else False, b.short + "." + name, str(rets), "%s is %s" % (name, want), fn.where() if fn else "")
     init = b.methods.get("__init__")
-    paths = paths_of(init.node) if init else []
+    paths = paths_of(ctx.inl(init)) if init else []
     table = {}
     for p in paths:
         key = " & ".join(("" if pol else "!") + norm(c) for c, pol in p.conds if not isinstance(c, tuple))
@@ -347,49 +405,154 @@ def rule_r7(ctx: Ctx) -> None:
         ctx.check(stores == [want_s.replace("children", i2.params[1]).replace("values", i2.params[1])] if i2 else False, c.short + ".__init__", str(stores), "operands are copied, in order", i2.where() if i2 else "", nontrivial=False)
 
 
+# constructor parameter roles of the operators, by position after self
+OPERATOR_ROLES = {
+    "NullaryOperator": ("values",),
+    "PaddingOperator": ("child", "alignment"),
+    "ConcatenationOperator": ("children",),
+    "RepetitionOperator": ("child", "k"),
+    "RangeRepetitionOperator": ("child", "k"),
+    "UnionOperator": ("children",),
+}
+
+
+def _operator_instance(ctx: Ctx, c: ClassInfo, actual: Dict[str, Any]) -> Sym:
+    """the abstract instance the constructor builds for the given arguments: its stores folded over the arguments"""
+    init = c.methods.get("__init__")
+    if init is None:
+        raise AnalysisError("%s.__init__ missing" % c.qualname)
+    roles = OPERATOR_ROLES[c.name]
+    params = init.params[1:]
+    if len(params) != len(roles):
+        raise AnalysisError("%s.__init__ takes %s, expected roles %s" % (c.qualname, params, roles))
+    env = {p: actual[r] for p, r in zip(params, roles)}
+    fields: Dict[str, Any] = {}
+    for st in walk_no_nested(ctx.inl(init)):
+        if isinstance(st, (ast.Assign, ast.AnnAssign)):
+            t = st.targets[0] if isinstance(st, ast.Assign) else st.target
+            d = dotted(t) or ""
+            if d.startswith("self.") and d.count(".") == 1 and st.value is not None:
+                try:
+                    fields[d.split(".")[1]] = Folder(env, ctx.repo, c.module, c).fold(st.value)
+                except Unfoldable as ex:
+                    raise AnalysisError("%s.__init__: cannot fold the store %s: %s" % (c.qualname, norm(st), ex))
+    return Sym(**fields)
+
+
+def _analytic_samples(cname: str) -> List[Dict[str, Any]]:
+    out = []
+    a = _sample_ints(24, 0, 97, 7)
+    b = _sample_ints(24, 0, 64, 11)
+    for i in range(24):
+        lo, hi = sorted((a[i], a[(i * 7 + 3) % 24]))
+        child = Sym(min=lo, max=hi)
+        lo2, hi2 = sorted((b[i], b[(i * 5 + 1) % 24]))
+        lo3, hi3 = sorted((a[(i + 9) % 24], b[(i + 4) % 24]))
+        children = [child, Sym(min=lo2, max=hi2), Sym(min=lo3, max=hi3)][: 1 + i % 3]
+        out.append({"child": child, "children": children, "k": b[(i * 3) % 24] % 9, "alignment": 1 + a[(i * 11) % 24] % 17, "values": frozenset(a[j % 24] for j in range(i, i + 1 + i % 4))})
+    return out
+
+
+def _spec_minmax(cname: str, q: str, x: Dict[str, Any]) -> int:
+    pick = (lambda o: o.min) if q == "min" else (lambda o: o.max)
+    agg = min if q == "min" else max
+    if cname == "NullaryOperator":
+        return agg(x["values"])
+    if cname == "PaddingOperator":
+        v, r = pick(x["child"]), x["alignment"]
+        return -(-v // r) * r
+    if cname == "ConcatenationOperator":
+        return sum(pick(o) for o in x["children"])
+    if cname == "RepetitionOperator":
+        return pick(x["child"]) * x["k"]
+    if cname == "RangeRepetitionOperator":
+        return 0 if q == "min" else x["child"].max * x["k"]
+    if cname == "UnionOperator":
+        return agg(pick(o) for o in x["children"])
+    raise AnalysisError("no specification for %s" % cname)
+
+
 def rule_r8(ctx: Ctx) -> None:
     repo = ctx.repo
-    ctx.rule("C01.R8", "analytic min / max forms of every operator and the padding function (rounding up to a multiple of the alignment)", min_instances=12)
-    forms = {
-        "NullaryOperator": ("min(self._value)", "max(self._value)"),
-        "PaddingOperator": ("self._pad(self._child.min)", "self._pad(self._child.max)"),
-        "ConcatenationOperator": ("sum((x.min for x in self._children))", "sum((x.max for x in self._children))"),
-        "RepetitionOperator": ("self._child.min * self._k", "self._child.max * self._k"),
-        "RangeRepetitionOperator": ("0", "self._child.max * self._k_max"),
-        "UnionOperator": ("min((x.min for x in self._children))", "max((x.max for x in self._children))"),
-    }
-    for cname, (wmin, wmax) in forms.items():
+    ctx.rule("C01.R8", "analytic min / max of every operator and the padding function equal their definitions (extension over a grid of abstract operands; private helpers expanded)", min_instances=12)
+    for cname in OPERATOR_ROLES:
         c = ctx.cls(SYM + "." + cname)
-        for q, want in (("min", wmin), ("max", wmax)):
+        for q in ("min", "max"):
             fn = c.methods.get(q)
-            rets = [norm(r.value) for r in walk_no_nested(fn.node) if isinstance(r, ast.Return)] if fn else []
-            alts = {want, " * ".join(reversed(want.split(" * "))) if " * " in want else want}
-            ctx.check(len(rets) == 1 and rets[0] in alts, c.short + "." + q, str(rets), "%s of a %s is %s" % (q, cname, want), fn.where() if fn else c.module.relpath)
-    pad = ctx.cls(SYM + ".PaddingOperator").methods.get("_pad")
+            if fn is None:
+                raise AnalysisError("anchor %s.%s missing" % (cname, q))
+            v = single_return(ctx, fn)
+            if v is None:
+                raise AnalysisError("%s.%s: not a single returned expression" % (cname, q))
+            bad = []
+            for x in _analytic_samples(cname):
+                me = _operator_instance(ctx, c, x)
+                try:
+                    got = Folder({"self": me}, repo, c.module, c).fold(v)
+                except Unfoldable as ex:
+                    raise AnalysisError("%s.%s: cannot evaluate %s over abstract operands: %s" % (cname, q, norm(v)[:60], ex))
+                want = _spec_minmax(cname, q, x)
+                ctx.count()
+                if got != want:
+                    bad.append({"operands": repr(x)[:160], "found": got, "expected": want})
+            ctx.check(not bad, c.short + "." + q, norm(v)[:80], "%s of a %s must equal its definition" % (q, cname), fn.where(), bad[:3])
+    pc = ctx.cls(SYM + ".PaddingOperator")
+    pad = pc.methods.get("_pad")
     if pad is None:
-        raise AnalysisError("anchor PaddingOperator._pad missing")
-    ps = [p for p in paths_of(pad.node) if p.kind == "return"]
-    if len(ps) != 1:
-        raise AnalysisError("_pad: expected a single return")
-    bad = []
-    for r in range(1, 18):
-        for x in range(0, 70):
-            try:
-                got = Folder({"self._padding": r, pad.params[1]: x}, repo, pad.module, pad.cls).fold(ps[0].value)
-            except Unfoldable as ex:
-                raise AnalysisError("_pad: cannot fold %s: %s" % (norm(ps[0].value), ex))
-            want = -(-x // r) * r
-            ctx.count()
-            if got != want:
-                bad.append({"x": x, "alignment": r, "found": got, "expected": want})
-    ctx.check(not bad, pad.short, norm(ps[0].value), "_pad rounds up to the next multiple of the alignment (1190 points)", pad.where(), bad[:4])
+        # the rounding may have been folded into min / max / modulo: it is then covered by the grid above
+        ctx.check(True, pc.short, "no separate rounding helper", "scan completed", pc.module.relpath, nontrivial=False)
+    else:
+        v = single_return(ctx, pad)
+        if v is None:
+            raise AnalysisError("_pad: expected a single returned expression")
+        bad = []
+        for r in range(1, 18):
+            me = _operator_instance(ctx, pc, {"child": Sym(min=0, max=0), "alignment": r})
+            for x in range(0, 70):
+                try:
+                    got = Folder({"self": me, pad.params[1]: x}, repo, pad.module, pad.cls).fold(v)
+                except Unfoldable as ex:
+                    raise AnalysisError("_pad: cannot fold %s: %s" % (norm(v), ex))
+                want = -(-x // r) * r
+                ctx.count()
+                if got != want:
+                    bad.append({"x": x, "alignment": r, "found": got, "expected": want})
+        ctx.check(not bad, pad.short, norm(v), "_pad rounds up to the next multiple of the alignment (all 1190 points of the grid)", pad.where(), bad[:4])
     lcm = repo.module(SYM).functions.get("least_common_multiple")
-    rets = [norm(r.value) for r in walk_no_nested(lcm.node) if isinstance(r, ast.Return)] if lcm else []
-    ctx.check(rets == ["math.lcm(%s, %s)" % (lcm.params[0], lcm.params[1])] if lcm else False, SYM + ".least_common_multiple", str(rets), "lcm is math.lcm of both arguments", lcm.where() if lcm else "")
-    # padding constructor guard and stored alignment
-    pi = ctx.cls(SYM + ".PaddingOperator").methods["__init__"]
-    src = norm(pi.node)
-    ctx.check("if %s < 1" % pi.params[2] in src and "self._padding = int(%s)" % pi.params[2] in src and "self._child = %s" % pi.params[1] in src, pi.short, "alignment >= 1 stored", "a padding needs a positive alignment", pi.where(), nontrivial=False)
+    if lcm is None:
+        raise AnalysisError("anchor least_common_multiple missing")
+    lv = single_return(ctx, lcm)
+    bad = []
+    if lv is None:
+        raise AnalysisError("least_common_multiple: not a single returned expression")
+    import math as _math
+
+    for a in range(1, 40):
+        for b_ in range(1, 40):
+            try:
+                got = Folder({lcm.params[0]: a, lcm.params[1]: b_}, repo, lcm.module, None).fold(lv)
+            except Unfoldable as ex:
+                raise AnalysisError("least_common_multiple: cannot fold %s: %s" % (norm(lv), ex))
+            ctx.count()
+            if got != _math.lcm(a, b_):
+                bad.append({"a": a, "b": b_, "found": got})
+    ctx.check(not bad, SYM + ".least_common_multiple", norm(lv), "least common multiple on the 39 x 39 grid", lcm.where(), bad[:3])
+    # padding constructor guard: a non-positive alignment is rejected before it is stored
+    pi = pc.methods["__init__"]
+    al = pi.params[2]
+    rejects = [p for p in paths_of(ctx.inl(pi)) if p.kind == "raise"]
+    region_ok = False
+    for pth in rejects:
+        conds = [(c_, pol) for c_, pol in pth.conds if not isinstance(c_, tuple)]
+        if len(conds) == 1:
+            c_, pol = conds[0]
+            try:
+                vals = {a: bool(Folder({al: a}, repo, pi.module, pc).fold(c_)) == pol for a in range(-3, 5)}
+            except Unfoldable:
+                continue
+            if all(vals[a] == (a < 1) for a in vals):
+                region_ok = True
+    ctx.check(region_ok, pi.short, "alignment < 1 rejected", "a padding needs a positive alignment", pi.where(), nontrivial=False)
 
 
 def run(ctx: Ctx) -> None:
